@@ -44,6 +44,7 @@ CLASSES = {
                          "state_fluents": ("ref", "dict_PDDLFunction")}, "bases": [],
               "src": ("models.pddl_state", "State")},
     "opaque": {"fields": {}, "bases": [], "lib": True},
+    "NOPOperator": {"fields": {}, "bases": [], "src": ("models.pddl_operator", "NOPOperator")},
     "JointActionCall": {"fields": {"actions": ("ref", "list_ActionCall")}, "bases": [], "src": ("models.action_call", "JointActionCall")},
     "ObservedComponent": {"fields": {"previous_state": ("ref", "State"), "grounded_action_call": ("ref", "ActionCall"), "next_state": ("ref", "State")},
                           "bases": [], "src": ("models.observation", "ObservedComponent")},
